@@ -12,7 +12,9 @@
 (*                          user:pass@ would beat auth_mechanism=external  *)
 (*   BugHostlessParseError  an authority with userinfo or port but no host *)
 (*                          is refused as unparsable instead of meaning    *)
-(*                          localhost                                      *)
+(*                          localhost (this is what the url crate's        *)
+(*                          EmptyHost error makes of amqp://user:pass@/v   *)
+(*                          and amqp://:5673 in the crate as found)        *)
 (***************************************************************************)
 EXTENDS Url, TLC
 
